@@ -199,6 +199,7 @@ pub fn op_fuzz(args: &[&str], payload: &[u8]) -> String {
     let mut max_ratio_input = String::new();
     let mut max_loop_ratio = 0f64;
     let mut samples: Vec<String> = Vec::new();
+    let mut distinct: std::collections::HashSet<u64> = std::collections::HashSet::new();
     let mut only_input = String::new();
     let mut only_mode = "";
     let mut only_off = 0u32;
@@ -229,6 +230,12 @@ pub fn op_fuzz(args: &[&str], payload: &[u8]) -> String {
         }
         if samples.len() < 4 && i % 97 == 3 {
             samples.push(text.clone());
+        }
+        if text.len() > 4 {
+            use std::hash::{Hash, Hasher};
+            let mut hs = std::collections::hash_map::DefaultHasher::new();
+            (mname, off, &text).hash(&mut hs);
+            distinct.insert(hs.finish());
         }
         let before = rustpython_parser::verif::steps();
         // 1. token stream up to and including the first error is finite
@@ -331,7 +338,8 @@ pub fn op_fuzz(args: &[&str], payload: &[u8]) -> String {
     let ks: Vec<String> = kinds.iter().map(|(k, v)| format!("{}:{}", jstr(k), v)).collect();
     let ss: Vec<String> = samples.iter().map(|s| jstr(s)).collect();
     format!(
-        "{{\"execs\":{},\"ok\":{},\"err\":{},\"lexerr\":{},\"err_kinds\":{{{}}},\"max_ratio\":{:.3},\"max_ratio_input\":{},\"max_loop_ratio\":{:.3},\"nviol\":{},\"violations\":[{}],\"samples\":[{}],\"only_input\":{},\"only_mode\":{},\"only_offset\":{}}}",
+        "{{\"distinct\":{},\"execs\":{},\"ok\":{},\"err\":{},\"lexerr\":{},\"err_kinds\":{{{}}},\"max_ratio\":{:.3},\"max_ratio_input\":{},\"max_loop_ratio\":{:.3},\"nviol\":{},\"violations\":[{}],\"samples\":[{}],\"only_input\":{},\"only_mode\":{},\"only_offset\":{}}}",
+        distinct.len(),
         execs,
         oks,
         errs,
